@@ -586,10 +586,22 @@ class ChangePoint(CovarianceFunction):
 
         for i in range(self.n_kernels - 1):
             w = w_vals[i]
+            # the coefficient of kernel i is w2[i-1] * w1[i] and that of kernel i+1
+            # is w2[i] * w1[i+1], so the factors belonging to the neighbouring
+            # change-points multiply the derivatives with respect to change-point i
+            w2_prev = w_vals[i - 1][:, None] * w_vals[i - 1][None, :] if i > 0 else 1.0
+            if i < self.n_kernels - 2:
+                w_next = w_vals[i + 1]
+                w1_next = (1 - w_next)[:, None] * (1 - w_next)[None, :]
+            else:
+                w1_next = 1.0
             for dw in w_grads[i]:
                 A = -dw[:, None] * (1 - w)[None, :]
                 B = dw[:, None] * w[None, :]
-                gradients.append(K_vals[i] * (A + A.T) + K_vals[i + 1] * (B + B.T))
+                gradients.append(
+                    K_vals[i] * w2_prev * (A + A.T)
+                    + K_vals[i + 1] * w1_next * (B + B.T)
+                )
         return covar, gradients
 
     @staticmethod
